@@ -278,6 +278,11 @@ func (c *channel) sendMsg(req request) (err error) {
 	if err != nil {
 		c.setLastErr(err)
 		c.streamBroken.set()
+		// A send can fail although the stream is still readable (and the
+		// receiver is waiting on it with the read lock held). Cancel the
+		// stream, so that the receiver notices the failure as well and the
+		// stream can be re-created.
+		cancelStream()
 	} else {
 		// the reply (if any) will arrive on this stream
 		c.markSent(req.msg.Metadata.MessageID, c.streamGen)
